@@ -88,3 +88,11 @@ pub proof fn lemma_all_below_mono(v: Seq<(Codepoints, String)>, a: int, b: int)
     ensures all_below(v, b)
 {
 }
+
+// what the compression loop holds after k rows: the written table plus the pending run
+pub open spec fn have(out: Seq<(Codepoints, String)>, range: Option<CodepointRange>, val: Option<String>, x: int, s: Seq<char>) -> bool {
+    assoc(out, x, s) || (range matches Some(r) && r.start.v() <= x <= r.end.v() && val is Some && val->Some_0@ == s)
+}
+pub open spec fn seen(rows: Seq<(Codepoints, String)>, k: int, x: int, s: Seq<char>) -> bool {
+    exists|j: int| 0 <= j < k && covers(#[trigger] rows[j].0, x) && rows[j].1@ == s
+}
